@@ -25,7 +25,7 @@ def dtype_cases(rng, quick):
     out = []
     for dt in ['uint8', 'uint16', 'uint32', 'int8', 'int16', 'int32', 'int64', 'float32', 'float64', 'float16']:
         info = np.iinfo(dt) if np.dtype(dt).kind in 'iu' else None
-        for _ in range(6 if quick else 40):
+        for _ in range(10 if quick else 60):
             n = rng.randint(2, 8)
             if info is not None:
                 lo = info.min
@@ -34,10 +34,14 @@ def dtype_cases(rng, quick):
                 if rng.random() < 0.7:
                     arr[rng.randrange(n)] = lo if base == lo else base
             else:
-                mag = rng.choice([1.0, 1e3, 2.0 ** 24, 2.0 ** 25 + 4, 2.0 ** 53, 2.0 ** 60, 1e20, -2.0 ** 53, -1e20, 4096.0, 60000.0])
+                mag = rng.choice([1.0, 1e3, 2.0 ** 24, 2.0 ** 25 + 4, 2.0 ** 53, 2.0 ** 60, 1e20, -2.0 ** 53, -1e20, 4096.0, 60000.0,
+                                  -2.0 ** 53, -2.0 ** 54, -2.0 ** 60, -1e20, -2.0 ** 25])
                 if dt == 'float16':
-                    mag = rng.choice([1.0, 2048.0, 4096.0, 8192.0, -4096.0, 30000.0])
-                arr = (np.array([rng.randint(0, 5) for _ in range(n)], dtype='float64') * abs(mag) * 2.0 ** -3 + mag).astype(dt)
+                    mag = rng.choice([1.0, 2048.0, 4096.0, 8192.0, -4096.0, 30000.0, -2048.0, -4096.0, -8192.0])
+                ks = [rng.randint(0, 5) for _ in range(n)]
+                if mag < 0 and rng.random() < 0.7:
+                    ks[rng.randrange(n)] = 0          # the minimum itself is the huge negative number (no float one below it)
+                arr = (np.array(ks, dtype='float64') * abs(mag) * 2.0 ** -3 + mag).astype(dt)
                 if rng.random() < 0.3:
                     arr[rng.randrange(n)] = np.nan
                 if not np.isfinite(arr).any() or np.isinf(arr).any():
